@@ -262,7 +262,10 @@ def q_remove_bitstring(cfg):
             if mode == "expect=k":
                 out.append((mode + ":expected", s.proves_eq(un - Lin.sym(("param", "expect"))), "unused bits equal the expected value"))
             if mode != "expect=0":
-                # when unused != 0 : content non-empty and padding bits tested for zero
+                # when unused != 0 : content non-empty and padding bits tested for zero; a return
+                # state in which unused may be non-zero must have been separated from unused == 0
+                if not s.proves_eq(un):
+                    out.append((mode + ":pad-split", s.proves_ge(un - 1), "a possibly non-zero unused-bits count is examined (unused >= 1 separated from 0) before the value is returned"))
                 if s.proves_ge(un - 1):
                     rest = ("slice", body, Lin.const(1).key(), None)
                     out.append((mode + ":pad-nonempty", s.proves_ge(length - 2), "unused != 0 on an empty bit string rejected"))
@@ -422,7 +425,7 @@ def run(chk):
             for cid, (ok, desc, n) in sorted(agg.items()):
                 chk.ob(rule, "%s: %s [%d return state(s)]" % (name, desc if rule == "R11.2" else cid + ": " + desc, n), ok, loc="der:" + name,
                        key="C11|%s|%s|%s" % (rule, name, cid), detail="%s: not established at every normal return: %s" % (name, desc))
-    chk.floor("R11.2", "minimality obligations", sum(1 for o in chk.obligations if o[0] == "R11.2"), 14)
+    chk.floor("R11.2", "minimality obligations", sum(1 for o in chk.obligations if o[0] == "R11.2"), 10)
     chk.internal = sorted(internal)
     chk.extra["readers"] = [f.qname for f, _a, _b in readers]
     chk.extra["writer_tags"] = {k: sorted(map(str, v)) for k, v in wt.items()}
